@@ -732,21 +732,12 @@ func (in *interp) flatten(sc scope, x *RelOp, coll *Val) (*Val, error) {
 			if err != nil {
 				return nil, err
 			}
-			switch {
-			case v.K == KList:
-				return nil, unpinned("flatten over maps with a list-valued body")
-			case v.K == KSet && coll.K == KList:
-				return nil, unpinned("flatten over a list of maps with a set-valued body")
-			case v.K == KSet:
-				for _, inner := range v.Items {
-					if err := add(inner); err != nil {
-						return nil, err
-					}
-				}
-			default:
-				if err := add(v); err != nil {
-					return nil, err
-				}
+			if v.K == KList || v.K == KSet {
+				// whether such a body's elements are spliced in is not pinned by the statement
+				return nil, unpinned("flatten over maps with a collection-valued body")
+			}
+			if err := add(v); err != nil {
+				return nil, err
 			}
 		default:
 			return nil, illTyped("flatten over a container of %s", it.K)
